@@ -324,7 +324,19 @@ func clusterRun(f []string) string {
 			fc.Finalise(hx.SlotOf(clusterKey(body)))
 			continue
 		case 'W':
+			ok0 := refreshes()
+			f0 := metric("upstream.slots_refresh.failure_total")
 			settle()
+			// a refresh loop that is failing and retrying (it asks a random configured host, some may be gone) is given
+			// the time to hit a live one: until a success, or 60 failures in a row (then no configured host answers)
+			if f1 := metric("upstream.slots_refresh.failure_total"); f1 != f0 && refreshes() == ok0 {
+				for k := 0; k < 1500 && refreshes() == ok0 && metric("upstream.slots_refresh.failure_total") < f0+60; k++ {
+					time.Sleep(2 * time.Millisecond)
+				}
+				if refreshes() != ok0 {
+					time.Sleep(5 * time.Millisecond)
+				}
+			}
 			continue
 		case 'C':
 			cl.C.Close()
@@ -362,14 +374,17 @@ func clusterRun(f []string) string {
 		if after > before || strings.Contains(rendered, "Edial") || strings.Contains(rendered, hx.Hex([]byte("finished with "))) {
 			// a redirection or a failed connect has triggered a slot refresh: let it finish, so that what the
 			// next command sees does not depend on a race between the client and the refresh loop
-			for k := 0; k < 600+int(minRate/(2*time.Millisecond)) && refreshes() == okBefore; k++ {
+			// (60 failed attempts in a row without a success: no configured host answers any more, nothing to wait for)
+			failed0 := metric("upstream.slots_refresh.failure_total")
+			hopeless := func() bool { return metric("upstream.slots_refresh.failure_total") >= failed0+60 && refreshes() == okBefore }
+			for k := 0; k < 600+int(minRate/(2*time.Millisecond)) && refreshes() == okBefore && !hopeless(); k++ {
 				time.Sleep(2 * time.Millisecond)
 			}
 			// several triggers may be queued behind one another (one per redirection): wait until the refresh loop is quiet
 			started := func() uint64 { refreshes(); return metric("upstream.slots_refresh.total") }
 			last, quiet := started(), 0
 			need := 13 + int(minRate/(2*time.Millisecond))
-			for k := 0; k < 1500 && quiet < need; k++ {
+			for k := 0; k < 1500 && quiet < need && !hopeless(); k++ {
 				time.Sleep(2 * time.Millisecond)
 				if cur := started(); cur == last {
 					quiet++
